@@ -293,6 +293,17 @@ func (s *Space) Uploads(o Op) []Upload {
 	return []Upload{u}
 }
 
+// Upload is Uploads for ops that stand for exactly one upload (every op
+// except OpInterloperTouchEdit, which only spaces with Interlopers set
+// contain); it panics otherwise.
+func (s *Space) Upload(o Op) Upload {
+	us := s.Uploads(o)
+	if len(us) != 1 {
+		panic("histsim: " + OpNames[o.Kind] + " stands for more than one upload, use Uploads")
+	}
+	return us[0]
+}
+
 // InterloperSkew is the offset of the interloper's child version from the
 // parent's timestamp for an OpInterloperTouchEdit with the given own skew.
 func (s *Space) InterloperSkew(ownSkew int) time.Duration {
